@@ -283,12 +283,21 @@ def _s3(ctx, adv, fwd, sl, rel):
                 col.ob("G13", "S3", f"{rel}::ctc_prefix_search_advance::pad-mass({ 'nb' if tgt == sorted(mass_names)[1] else 'b'})",
                        ok, f"`{u(n)}` pads a mass with something other than the -inf sentinel: a slot holding no real "
                        f"prefix would carry positive mass", rel, n.lineno, sample=u(n))
-            if tgt == rel_name and u(elts[0]) == tgt:
-                n_rel += 1
-                ok = all(_is_false_fill(rda, e) for e in elts[1:])
-                col.ob("G13", "S3", f"{rel}::ctc_prefix_search_advance::pad-prefix-relation[{n_rel}]", ok,
-                       f"`{u(n)}` pads the prefix relation with something other than False", rel, n.lineno, sample=u(n))
+            if tgt == rel_name:
+                # one cat per axis, as two statements or nested in one expression
+                def _cats(c_):
+                    first = c_.args[0].elts[0]
+                    inner = _cats(first) if isinstance(first, ast.Call) and call_name(first) == "torch.cat" and first.args \
+                        and isinstance(first.args[0], (ast.List, ast.Tuple)) else ([] if u(first) == tgt else None)
+                    return None if inner is None else inner + [c_]
+                chain = _cats(n.value)
+                for c_ in chain or []:
+                    n_rel += 1
+                    ok = all(_is_false_fill(rda, e) for e in c_.args[0].elts[1:])
+                    col.ob("G13", "S3", f"{rel}::ctc_prefix_search_advance::pad-prefix-relation[{n_rel}]", ok,
+                           f"`{u(c_)[:120]}` pads the prefix relation with something other than False", rel, n.lineno, sample=u(c_)[:120])
     col.floor("advance_mass_pad_sites", n_mass, 2)
+    _dead_sources_excluded_from_merges(ctx, adv, rel)
     # case splits over one per-path predicate: in `p | (~p' & q)` (k is unextended, or it is extended and its new label matches)
     # p and p' are the same vector and must be laid along the same axis of the (k, k') relation - viewed along different axes
     # the two arms talk about different paths
@@ -349,6 +358,51 @@ def _s3(ctx, adv, fwd, sl, rel):
                        f"`{u(n)[:100]}` pads a mass with something other than the -inf sentinel", rel, n.lineno,
                        sample=u(n)[:120])
     col.floor("forward_mass_pad_sites", nf, 3)
+
+
+def _dead_sources_excluded_from_merges(ctx, adv, rel):
+    """S6: the masses live in probability space with -inf marking a slot that holds no prefix (fillers of an over-wide beam,
+    extensions merged into an identical prefix). The merge of an extension into the identical existing prefix is a SUM over source
+    slots selected by the prefix relation: `ext.gather(..).masked_fill(~exact, 0.0).sum(1)`. A dead source that is still recorded
+    as a prefix contributes -inf and the real prefix it is merged into dies with it - with a beam wider than the number of
+    distinct prefixes a whole label sequence (and its mass) disappears although nothing had to be pruned. Either the selection mask
+    of every such sum, or the prefix relation handed to the next step, must derive from a liveness test of the masses
+    (a comparison with -inf / isinf / isfinite)."""
+    col = ctx.col
+    rda = ReachingDefs(adv.node)
+    st = SentinelTaint(adv, tainted_params={"probs_prev"})
+
+    def liveness(e):
+        for x in [e] + list(rda.derives(e).exprs):
+            for y in ast.walk(x):
+                if isinstance(y, ast.Compare) and any(is_neg_inf(z) for z in [y.left] + list(y.comparators)):
+                    return True
+                if isinstance(y, ast.Call) and call_name(y).split(".")[-1] in ("isinf", "isfinite", "isneginf"):
+                    return True
+        return False
+    ret = [s_ for s_, _ in rda.return_envs][-1]
+    rel_out = ret.value.elts[4] if isinstance(ret.value, ast.Tuple) and len(ret.value.elts) == 7 else None
+    out_live = rel_out is not None and liveness(rel_out)
+    sites, bad = 0, []
+    for c in own_calls(adv.node):
+        if not (isinstance(c.func, ast.Attribute) and c.func.attr == "sum" and c.args):
+            continue
+        recv = c.func.value
+        if not (isinstance(recv, ast.Call) and isinstance(recv.func, ast.Attribute) and recv.func.attr == "masked_fill" and len(recv.args) == 2
+                and u(recv.args[1]) in ("0.0", "0")):
+            continue
+        if not st.tainted(recv.func.value):
+            continue
+        sites += 1
+        if not (out_live or liveness(recv.args[0])):
+            bad.append(c)
+    col.floor("merge_sum_sites", sites, 1)
+    col.ob("G20", "S6", f"{rel}::ctc_prefix_search_advance::dead-slots-are-no-sources-of-a-merge", not bad,
+           (f"`{u(bad[0])[:110]}` sums extension masses over the source slots selected by the prefix relation; a slot without mass "
+            f"(-inf) that is still recorded as a prefix contributes -inf and kills the real prefix it is merged into - e.g. V = 1, T = 5, "
+            f"width 10: the label sequence (0, 0, 0) with mass 0.12 is missing although only 4 distinct sequences exist. Neither the "
+            f"selection mask nor the returned prefix relation is conjoined with a liveness test of the masses") if bad else "", rel,
+           bad[0].lineno if bad else adv.line, sample=sites)
 
 
 def _is_neg_inf_fill(rd, e) -> bool:
